@@ -252,8 +252,19 @@ func (a *Adv) Step() string {
 		case 3:
 			e = b - 1
 		}
-		label = fmt.Sprintf("resendrequest %d..%d seq=%d (S=%d T=%d)", b, e, p.OutSeq, S, T)
-		a.send("2", []wire.Field{wire.FI(7, b), wire.FI(16, e)}, MsgOpt{})
+		o := MsgOpt{}
+		switch ch.Weighted("rrseq", []int{6, 2, 1}) {
+		case 1: // the request's own number is below the expected one (a stale or replayed request)
+			if T > 1 {
+				o.Seq = 1 + ch.Choose("rrlow", T-1)
+				o.PossDup = ch.Chance("rrpossdup", 1, 2)
+			}
+		case 2: // ... or ahead of it
+			o.Seq = T + 1 + ch.Choose("rrhigh", 3)
+			o.Advance = true
+		}
+		label = fmt.Sprintf("resendrequest %d..%d seq=%d (S=%d T=%d)", b, e, map[bool]int{true: p.OutSeq, false: o.Seq}[o.Seq == 0], S, T)
+		a.send("2", []wire.Field{wire.FI(7, b), wire.FI(16, e)}, o)
 		env.Stat("probe_peer_resend_request")
 	case 9: // logout by the peer
 		label = fmt.Sprintf("logout seq=%d (T=%d)", p.OutSeq, T)
